@@ -578,6 +578,9 @@ func writeEvidence(prop, tier string, seed int, pc *PropCfg, eng *Engine, result
 		samples = samples[:24]
 	}
 	sort.Strings(notEst)
+	if notEst == nil {
+		notEst = []string{}
+	}
 	fns := sortedStrings(fnset)
 	var repoFns []string
 	for _, f := range fns {
